@@ -135,6 +135,10 @@ def _poles(ctx, pydrex, case):
     ctx.extreme("poles_err", e)
     ctx.check("poles_equal_reference", e <= 1e-12, case, err=e, hkl=hkl.tolist())
     ctx.check("poles_unit", bool(np.allclose(xv**2 + yv**2 + zv**2, 1.0, atol=1e-12)), case)
+    if case["seed"] % 4 == 0:
+        ctx.fresh_outputs("poles", G.poles, A.copy(), ref, list(int(v) for v in hkl), case=case)
+        ctx.fresh_outputs("lambert_equal_area", G.lambert_equal_area, xv.copy(), yv.copy(), zv.copy(), case=case)
+        ctx.fresh_outputs("to_spherical", G.to_spherical, xv.copy(), yv.copy(), zv.copy(), case=case)
 
 
 def _lift(X, Y):
